@@ -132,3 +132,21 @@ Theorem C06_totals_area_weighted :
     tld_force cs rho v = (1 / 2 * rho * (v * v)) * S_tot * tld_coeff cs S_tot.
 Proof. intros; split; [apply coeff_area_weighted | apply force_eq_q_S_C; assumption]. Qed.
 Print Assumptions C06_totals_area_weighted.
+
+(* ---- the laws through the whole VLMStates wiring of a surface (mesh -> lattice -> vectors -> matrix, rhs -> residual) ---- *)
+From OAS Require Import ChainLaws.
+Theorem C06_assembled_system_speed_scaling :
+  forall (npx npy : nat) (sym left : bool) (al be v c : R) (m : nat -> nat -> nat -> R) (G : nat -> R),
+    (forall p, (p < npx * npy)%nat -> chain_residual npx npy sym left al be v m G p = 0) ->
+    forall p, (p < npx * npy)%nat -> chain_residual npx npy sym left al be (c * v) m (fun q => c * G q) p = 0.
+Proof. exact chain_solution_scales_with_speed. Qed.
+Print Assumptions C06_assembled_system_speed_scaling.
+
+Theorem C06_assembled_system_translation_invariant :
+  forall (npx npy : nat) (sym left : bool) (al be v : R) (m : nat -> nat -> nat -> R) (t : nat -> R),
+    sym = false \/ t 1%nat = 0 ->
+    (forall p q, chain_aic npx npy sym left al (shifted m t) p q = chain_aic npx npy sym left al m p q) /\
+    (forall p, chain_rhs npy al be v (shifted m t) p = chain_rhs npy al be v m p) /\
+    (forall G p, chain_residual npx npy sym left al be v (shifted m t) G p = chain_residual npx npy sym left al be v m G p).
+Proof. exact chain_translation. Qed.
+Print Assumptions C06_assembled_system_translation_invariant.
